@@ -37,7 +37,10 @@ def alias_shapes():
         for op in ASSIGN_OPS:
             ops += [f"a {op} b", f"a {op} a", f"a[0] {op} a", f"a[0] {op} b", f"b[0] {op} a", f"a.k {op} a", f"a.k {op} b",
                     f"a[\"k\"] {op} a", f"b {op} a[0]"]
-        ops += ["a[0] = a[0]", "a[0] = b", "b[0] = a[0]", "a[0:1] = a", "a[0:1] = b", "a[0:1] = a[0:1]", "a[:] = a", "b[:] = a",
+        ops += ["[a[0], a[1]] = a", "[a[1], a[0]] = a", "[b[0], x9] = a", "[a[0], ..r9] = a", "[x9, a[0]] = b", "{\"k\": a.k} = a",
+                "{\"k\": a[\"k\"], ..r9} = a", "[[a[0]], b[0]] = [a, b]", "for [a[0], v] in a {\n    print(v)\n}",
+                "fn h(p) { [p[0], a[0]] = a; return p; }\nprint(h(a))", "[a[0:1], x9] = [a, a]" if False else "x9 := a\n[x9[0], a[0]] = x9",
+                "a[0] = a[0]", "a[0] = b", "b[0] = a[0]", "a[0:1] = a", "a[0:1] = b", "a[0:1] = a[0:1]", "a[:] = a", "b[:] = a",
                 "print([a.., b..])", "print([a.., a..])", "print({a.., b..})", "print({\"x\": a, \"y\": a})", "[x, ..y] := a\nprint(y)",
                 "[x, ..y] := a\ny[0] = a\nprint(a)" if False else "[x, ..y] := a\nprint(x)", "{k, ..r} := a\nprint(r)",
                 "for [i, v] in a {\n    a[0] = v\n}", "for [i, v] in a {\n    a += [v]\n}", "for [i, v] in a {\n    print(v == a)\n}",
@@ -66,4 +69,4 @@ def int_lit(n):
 
 
 def utf8_alphabet():
-    return ["a", "é", "€", "😀", "\\\\", "\\\"", "\\$", "\\n", "\\x41", "{", "}", " "]
+    return ["a", "é", "€", "😀", "\\\\", "\\\"", "\\$", "\\n", "\\x41", "\\xe9", "\\xff", "{", "}", " "]
